@@ -170,18 +170,18 @@ Print Assumptions C10_batch_parse_serialize.
     the slots below node i, and keeps the store content-addressed — unless H is broken. *)
 Theorem C10_batch_update_refines :
   forall (H : bytes -> bytes), (forall x, length (H x) = 32) ->
-  forall (atomic : bool) (h : nat), rec_ok H h (bupdate H atomic h).
+  forall (atomic : bool) (climit h : nat), rec_ok H climit h (bupdate H atomic climit h).
 Proof. exact bupdate_ok. Qed.
 Print Assumptions C10_batch_update_refines.
 
 (** Trie.Update on the batch store: the new root is the root of the updated tree. *)
 Theorem C10_trie_update_b_refines :
   forall (H : bytes -> bytes), (forall x, length (H x) = 32) ->
-  forall (atomic : bool) st rt kvs t st' rt',
-  inv_st H st -> wf 256 t -> vals32 t -> canon t -> good 256 kvs ->
+  forall (atomic : bool) (climit : nat) st rt kvs t st' rt',
+  inv_st H climit st -> wf 256 t -> vals32 t -> canon t -> good 256 kvs ->
   rt = root H 256 t ->
-  trie_update_b H atomic st rt kvs = Some (st', rt') ->
-  (rt' = root H 256 (trie_update 256 t kvs) /\ inv_st H st') \/ hash_break H.
+  trie_update_b H atomic climit st rt kvs = Some (st', rt') ->
+  (rt' = root H 256 (trie_update 256 t kvs) /\ inv_st H climit st') \/ hash_break H.
 Proof. exact trie_update_b_refines. Qed.
 Print Assumptions C10_trie_update_b_refines.
 
@@ -189,8 +189,8 @@ Print Assumptions C10_trie_update_b_refines.
     the root of t is t (if a needed batch is missing the read fails: F21 class). *)
 Theorem C10_abs_batch_store_sound :
   forall (H : bytes -> bytes), (forall x, length (H x) = 32) ->
-  forall st t t'',
-  inv_st H st -> wf 256 t -> vals32 t ->
+  forall (climit : nat) st t t'',
+  inv_st H climit st -> wf 256 t -> vals32 t ->
   abs_batch_store st (root H 256 t) = Some t'' -> t'' = t \/ hash_break H.
 Proof. exact abs_batch_store_sound. Qed.
 Print Assumptions C10_abs_batch_store_sound.
@@ -199,9 +199,37 @@ Print Assumptions C10_abs_batch_store_sound.
     content-addressed: uses the parse/serialize round trip on canonical batches. *)
 Theorem C10_commit_keeps_store_canonical :
   forall (H : bytes -> bytes), (forall x, length (H x) = 32) ->
-  forall st, inv_st H st -> inv_st H (commit_store st).
+  forall (climit : nat) st, inv_st H climit st -> inv_st H climit (commit_store st).
 Proof. exact commit_keeps_inv. Qed.
 Print Assumptions C10_commit_keeps_store_canonical.
+
+(** liveCache (CacheHeightLimit = climit, any value; the node never sets it: TrieHeight+1 = no
+    cache).  [inv_st] contains [cache_canonical]: every liveCache entry is the canonical batch
+    of a tree position at or above the limit with that hash; C10_batch_update_refines /
+    C10_trie_update_b_refines state that Update preserves it, including the in-place mutation
+    of a batch obtained from the cache ([alias_back]): storeNode and deleteOldNode use the SAME
+    test (height >= limit), so the replaced entry is always evicted.  Hence reads through the
+    cache equal reads without it: *)
+Theorem C10_cache_read_transparent :
+  forall (H : bytes -> bytes), (forall x, length (H x) = 32) ->
+  forall (climit : nat) st t a b,
+  inv_st H climit st -> wf 256 t -> vals32 t ->
+  abs_batch_store st (root H 256 t) = Some a ->
+  abs_batch_store (drop_cache st) (root H 256 t) = Some b ->
+  (a = t /\ b = t) \/ hash_break H.
+Proof. exact cache_read_transparent. Qed.
+Print Assumptions C10_cache_read_transparent.
+
+(** Two batch roots at different heights (other than the byte(256) == byte(0) pair) never share
+    a hash: what keeps a batch below the cache limit from hitting the cache. *)
+Theorem C10_height_clash_breaks_hash :
+  forall (H : bytes -> bytes), (forall x, length (H x) = 32) ->
+  forall t h rp t2 h2 rp2,
+  h < h2 -> h2 <= 256 -> ~ (h = 0 /\ h2 = 256) ->
+  length rp + h = 256 -> length rp2 + h2 = 256 -> wf h t -> wf h2 t2 -> vals32 t -> vals32 t2 ->
+  1 <= size t -> th H h rp t = th H h2 rp2 t2 -> hash_break H.
+Proof. exact height_clash_break. Qed.
+Print Assumptions C10_height_clash_breaks_hash.
 
 (** Parallel subtree updates: the slots below the two children of a node are disjoint and
     neither child slot lies below the other (with the frame clause of the refinement theorem:
